@@ -970,6 +970,75 @@ fn c19(tier: &str, seed: u64) -> Report {
     rep
 }
 
+// ------------------------------------------------------------------------------------------ C10
+fn colex_cmp(a: &[usize], b: &[usize]) -> std::cmp::Ordering {
+    for i in (0..a.len()).rev() {
+        if a[i] != b[i] {
+            return a[i].cmp(&b[i]);
+        }
+    }
+    std::cmp::Ordering::Equal
+}
+fn bit_lex_cmp(a: &[usize], b: &[usize], w: usize) -> std::cmp::Ordering {
+    // bit 0 of symbol 0 first
+    for i in 0..a.len() {
+        for j in 0..w {
+            let (x, y) = ((a[i] >> j) & 1, (b[i] >> j) & 1);
+            if x != y {
+                return x.cmp(&y);
+            }
+        }
+    }
+    std::cmp::Ordering::Equal
+}
+fn c10_min<const K: usize>(rep: &mut Report, rng: &mut Rng) {
+    for n in [K, K + 1, K + 7, 50] {
+        let rows = rand_rows::<Dna>(rng, n);
+        let s = build::<Dna>(&rows);
+        rep.case(|| format!("min K={} {}", K, s));
+        let mn = s.kmers::<K>().min().unwrap();
+        let mx = s.kmers::<K>().max().unwrap();
+        let mut best = &rows[0..K];
+        let mut worst = &rows[0..K];
+        for i in 0..=n - K {
+            if colex_cmp(&rows[i..i + K], best) == std::cmp::Ordering::Less {
+                best = &rows[i..i + K];
+            }
+            if colex_cmp(&rows[i..i + K], worst) == std::cmp::Ordering::Greater {
+                worst = &rows[i..i + K];
+            }
+        }
+        rep.expect(rows_of::<Dna>(&*mn) == best && rows_of::<Dna>(&*mx) == worst, "C10 min/max over a sequence's k-mers is its colexicographic minimiser/maximiser", || format!("K={} {} min={} max={}", K, s, mn, mx));
+        let mut sorted: Vec<Kmer<Dna, K>> = s.kmers::<K>().collect();
+        sorted.sort();
+        let ok = sorted.windows(2).all(|p| colex_cmp(&rows_of::<Dna>(&*p[0]), &rows_of::<Dna>(&*p[1])) != std::cmp::Ordering::Greater);
+        rep.expect(ok, "C10 sorting k-mers sorts them colexicographically", || format!("K={} {}", K, s));
+    }
+}
+fn c10(_tier: &str, seed: u64) -> Report {
+    let mut rep = Report::new("C10", "all pairs of equal-length DNA sequences of length 1..3 (exhaustive) and IUPAC of length 1..2; min/max/sort of k-mers K in {1,3,8,31} over random sequences");
+    rep.functions = vec!["derived Ord on Seq (bitvec Ord for BitVec)", "Iterator::min/max/sort over kmers()"];
+    let mut rng = Rng::new(seed);
+    for n in 1..=3usize {
+        for va in 0..4usize.pow(n as u32) {
+            for vb in 0..4usize.pow(n as u32) {
+                let a: Vec<usize> = (0..n).map(|i| (va >> (2 * i)) & 3).collect();
+                let b: Vec<usize> = (0..n).map(|i| (vb >> (2 * i)) & 3).collect();
+                let (sa, sb) = (build::<Dna>(&a), build::<Dna>(&b));
+                rep.case(|| format!("{} vs {}", sa, sb));
+                rep.expect(sa.cmp(&sb) == colex_cmp(&a, &b), "C10 equal-length owned sequences order colexicographically like k-mers", || format!("Seq {} vs Seq {}: got {:?}, k-mers order {:?}", sa, sb, sa.cmp(&sb), colex_cmp(&a, &b)));
+                rep.expect(sa.cmp(&sb) == bit_lex_cmp(&a, &b, 2), "F8 behaviour: Seq order is lexicographic on the packed bits (symbol 0 first, low bit first)", || format!("{} vs {}", sa, sb));
+                rep.expect((sa.cmp(&sb) == std::cmp::Ordering::Equal) == (sa == sb) && sa.partial_cmp(&sb) == Some(sa.cmp(&sb)), "C10 Seq order is consistent with equality", || format!("{} vs {}", sa, sb));
+            }
+        }
+    }
+    c10_min::<1>(&mut rep, &mut rng);
+    c10_min::<3>(&mut rep, &mut rng);
+    c10_min::<8>(&mut rep, &mut rng);
+    c10_min::<31>(&mut rep, &mut rng);
+    rep
+}
+
 pub fn run(prop: &str, tier: &str, seed: u64) -> Report {
     match prop {
         "C01" => c01(tier, seed),
@@ -979,6 +1048,7 @@ pub fn run(prop: &str, tier: &str, seed: u64) -> Report {
         "C06" => c06(tier, seed),
         "C07" => c07(tier, seed),
         "C08" => c08(tier, seed),
+        "C10" => c10(tier, seed),
         "C11" => c11(tier, seed),
         "C12" => c12(tier, seed),
         "C13" => c13(tier, seed),
